@@ -155,6 +155,7 @@ class Evaluator:
         self._ctx: Tuple[str, ...] = ()
         self._tenv_stack: List[TypeEnv] = [cg.env(func)]
         self._quiet = 0
+        self._plain_literals = 0
 
     # ------------------------------------------------------------------ entry points
     def run(self, extra_env: Optional[Dict[str, Term]] = None) -> List[Path]:
@@ -790,7 +791,11 @@ class Evaluator:
         if isinstance(e, ast.Call):
             return self._eval_call(st, e)
         if isinstance(e, ast.Compare):
-            res2 = self._eval_many(st, [e.left] + list(e.comparators))
+            self._plain_literals += 1  # literal containers compared against need no identity
+            try:
+                res2 = self._eval_many(st, [e.left] + list(e.comparators))
+            finally:
+                self._plain_literals -= 1
             out = []
             for s, ts in res2:
                 parts2 = []
@@ -830,9 +835,16 @@ class Evaluator:
         if isinstance(e, (ast.Tuple, ast.List, ast.Set)):
             kind = {ast.Tuple: "tuple", ast.List: "list", ast.Set: "set"}[type(e)]
             out = []
-            for s, ts in self._eval_many(st, e.elts):
+            plain = self._plain_literals > 0
+            saved_pl = self._plain_literals
+            self._plain_literals = 0
+            try:
+                parts = self._eval_many(st, e.elts)
+            finally:
+                self._plain_literals = saved_pl
+            for s, ts in parts:
                 t = (kind, tuple(ts))
-                if kind in ("list", "set"):
+                if kind in ("list", "set") and not plain:
                     t = self._fresh(s, t, e)
                 out.append((s, t))
             return out
